@@ -60,6 +60,8 @@ pub enum Req {
     Invoice(u8),
     Allow(u8),
     NewChan(u64),
+    /// forget the channel that new_channel(dbid) creates
+    ForgetDb(u64),
     Onchain,
     /// setup_channel on the stub (makes it a ready channel with its own monitor)
     SetupChan,
@@ -77,7 +79,7 @@ impl Req {
         match self {
             Req::Validate(_) | Req::SignHolder(_) | Req::SignCp(_) => "channel_request",
             Req::Point(_) => "channel_base_request",
-            Req::Forget(_) => "forget_channel",
+            Req::Forget(_) | Req::ForgetDb(_) => "forget_channel",
             Req::Balance => "channel_balance",
             Req::Chaninfo => "chaninfo",
             Req::Heartbeat => "get_heartbeat",
@@ -106,6 +108,7 @@ impl Req {
             Req::Invoice(x) => format!("req {} invoice {}", tid, x),
             Req::Allow(x) => format!("req {} allow {}", tid, x),
             Req::NewChan(d) => format!("req {} newchan {}", tid, d),
+            Req::ForgetDb(d) => format!("req {} forgetdb {}", tid, d),
             Req::Onchain => format!("req {} onchain", tid),
             Req::SetupChan => format!("req {} setupchan", tid),
             Req::SignOnchain => format!("req {} signonchain", tid),
@@ -129,6 +132,7 @@ impl Req {
             "invoice" => Req::Invoice(arg()? as u8),
             "allow" => Req::Allow(arg()? as u8),
             "newchan" => Req::NewChan(arg()?),
+            "forgetdb" => Req::ForgetDb(arg()?),
             "onchain" => Req::Onchain,
             "setupchan" => Req::SetupChan,
             "signonchain" => Req::SignOnchain,
@@ -375,6 +379,10 @@ fn do_req(w: &World, r: &Req) -> String {
             };
             status_str(&node.forget_channel(&id))
         }
+        Req::ForgetDb(dbid) => {
+            let id = ChannelId::new_from_peer_id_and_oid(&[2u8; 33], *dbid);
+            status_str(&node.forget_channel(&id))
+        }
         Req::Balance => format!("{:?}", node.channel_balance()),
         Req::Chaninfo => {
             let v = node.chaninfo();
@@ -506,7 +514,7 @@ fn digest(w: &World) -> String {
     for (id, slot) in slots {
         let g = slot.lock().unwrap();
         match &*g {
-            ChannelSlot::Stub(_) => s += &format!(" {}=stub;", &hex::encode(id.as_slice())[..4]),
+            ChannelSlot::Stub(_) => s += &format!(" {}/oid{}=stub;", &hex::encode(id.as_slice())[..4], id.oid()),
             ChannelSlot::Ready(c) => {
                 let es = &c.enforcement_state;
                 s += &format!(
@@ -983,8 +991,16 @@ impl C20 {
             let serial = self.serial_outcomes(sc);
             let mine = (&r.replies, &r.final_state);
             if !serial.iter().any(|(rep, fin, ok)| *ok && rep == mine.0 && fin == mine.1) {
+                // a specific shape gets its own kind: a channel created by new_channel(dbid) exists at the
+                // end although the high-water mark has reached dbid (the id was handed out again after
+                // a forget_channel raised the mark)
+                let hwm: u64 = r.final_state.strip_prefix("hwm=").and_then(|t| t.split(' ').next()).and_then(|t| t.parse().ok()).unwrap_or(0);
+                let reuse = sc.threads.iter().flatten().any(|q| match q {
+                    Req::NewChan(d) => *d <= hwm && r.final_state.contains(&format!("/oid{}=stub;", d)),
+                    _ => false,
+                });
                 co.violations.push(Violation {
-                    kind: "non-serializable-outcome".into(),
+                    kind: if reuse { "id-reuse:new_channel-after-forget".into() } else { "non-serializable-outcome".into() },
                     desc: format!(
                         "concurrent outcome equals none of the {} sequential orders: replies {:?} final {}; first sequential: {:?}",
                         serial.len(), r.replies, r.final_state, serial.first()
@@ -1074,7 +1090,7 @@ fn gen_scenario(rng: &mut Rng) -> Scenario {
                 14..=15 => Req::Keysend(rng.below(3) as u8),
                 16 => Req::Invoice(rng.below(3) as u8),
                 17 => Req::Allow(rng.below(2) as u8),
-                18 => Req::NewChan(rng.range(1, 300)),
+                18 => if rng.chance(1, 3) { Req::ForgetDb(rng.range(1, 4) * 50) } else { Req::NewChan(rng.range(1, 4) * 50) },
                 19 => Req::Onchain,
                 20 => Req::SetupChan,
                 21 => Req::SignOnchain,
@@ -1145,13 +1161,14 @@ impl Group for C20 {
             Scenario { nchan: 1, stub: false, threads: vec![vec![Req::Heartbeat], vec![Req::NewChan(7)]] },
             Scenario { nchan: 1, stub: false, threads: vec![vec![Req::AddBlock(0), Req::RmBlock], vec![Req::Validate(0)]] },
             Scenario { nchan: 1, stub: true, threads: vec![vec![Req::SetupChan], vec![Req::SignOnchain], vec![Req::Balance]] },
-            Scenario { nchan: 1, stub: true, threads: vec![vec![Req::NewChan(300)], vec![Req::Forget(9)], vec![Req::NewChan(150)]] },
+            Scenario { nchan: 1, stub: false, threads: vec![vec![Req::NewChan(100), Req::ForgetDb(100)], vec![Req::NewChan(50)], vec![Req::NewChan(100)]] },
+            Scenario { nchan: 1, stub: false, threads: vec![vec![Req::NewChan(100), Req::ForgetDb(100)], vec![Req::NewChan(100), Req::NewChan(150)]] },
             Scenario { nchan: 1, stub: false, threads: vec![vec![Req::Validate(0)], vec![Req::SignCp(0)], vec![Req::SignHolder(0)]] },
             Scenario { nchan: 2, stub: false, threads: vec![vec![Req::Validate(0), Req::Keysend(1)], vec![Req::Validate(1), Req::Onchain]] },
         ];
         let mut out = Vec::new();
         for sc in &scs {
-            for seed in 1..=6u64 {
+            for seed in 1..=8u64 {
                 out.push(self.make_case(sc, if seed % 2 == 0 { Sched::Pct } else { Sched::Random }, seed * 7919));
             }
         }
